@@ -142,7 +142,9 @@ mod ir_builder {
                     //       In the case of old decoding, every entry is at the same time an original entry, but in the IR
                     //       we mark them only as `entry`s so there is a bit of information lost at the roundtrip.
                     //       Remove this hack to recognize the new encoding once it becomes the only encoding.
-                    let is_original_entry = is_original_entry || (is_entry && !name.starts_with("__entry"));
+                    //       With the new encoding the printer writes `entry_orig` explicitly, so nothing is
+                    //       inferred there (see `build_context`).
+                    let is_inferred_original_entry = is_entry && !name.starts_with("__entry");
                     IrAstFnDecl {
                         name,
                         args,
@@ -154,6 +156,7 @@ mod ir_builder {
                         selector,
                         is_entry,
                         is_original_entry,
+                        is_inferred_original_entry,
                         is_fallback,
                     }
                 }
@@ -880,6 +883,7 @@ mod ir_builder {
         selector: Option<[u8; 4]>,
         is_entry: bool,
         is_original_entry: bool,
+        is_inferred_original_entry: bool,
         is_fallback: bool,
     }
 
@@ -1233,7 +1237,8 @@ mod ir_builder {
                 fn_decl.selector,
                 fn_decl.is_public,
                 fn_decl.is_entry,
-                fn_decl.is_original_entry,
+                fn_decl.is_original_entry
+                    || (!context.experimental.new_encoding && fn_decl.is_inferred_original_entry),
                 fn_decl.is_fallback,
                 convert_md_idx(&fn_decl.metadata),
             );
